@@ -128,6 +128,18 @@ class LabJsonLen(JSONData):
         return len(self._value) if self._value is not None else 0
 
 
+class IdentityValue:
+    """equal only to itself; its repr shows its identity"""
+
+
+class LockHolder:
+    """holds a lock: cannot be deep-copied or pickled"""
+
+    def __init__(self):
+        import threading
+        self.lock = threading.Lock()
+
+
 class LabMemEmpty(LabMem):
     """an in-memory result that is an EMPTY container (falsy), e.g. a vocabulary from which a threshold removed every word"""
 
